@@ -400,6 +400,7 @@ pub fn run(ctx: &mut Ctx) {
             _ => {}
         }
         let mut imp_line: Vec<String> = vec![];
+        let mut base_imp_pos: std::collections::HashMap<usize, u32> = std::collections::HashMap::new(); // handle -> ImportsID
         let mut f_items: Vec<String> = vec![];
         let mut g_items: Vec<String> = vec![];
         let mut m_items: Vec<String> = vec![];
@@ -430,6 +431,7 @@ pub fn run(ctx: &mut Ctx) {
                         base_fnames.push((u, format!("f{u}")));
                     }
                     hs.push(Handle { sp: Sp::F, id: fi, uid: u, imp: true, deleted: false });
+                    base_imp_pos.insert(hs.len() - 1, imp_line.len() as u32);
                     f_items.push(format!("i{u}"));
                     imp_line.push(format!("F{u}"));
                     fi += 1;
@@ -531,6 +533,9 @@ pub fn run(ctx: &mut Ctx) {
         let mut adatas: Vec<AddedData> = vec![];
         let mut reinit: Vec<(usize, Init)> = vec![]; // base global handle, new initialiser
         let mut export_uses: Vec<(String, usize)> = vec![]; // export name, handle
+        let mut reexported: Vec<String> = vec![];
+        // handles whose import was replaced by a built function: `set_fn_name` on them trips the assertion noted as F28 (loud)
+        let mut replaced: Vec<usize> = vec![];
         let mut renames: Vec<(usize, String)> = vec![];
         #[derive(Clone)]
         enum A {
@@ -545,12 +550,16 @@ pub fn run(ctx: &mut Ctx) {
             ImpGlobal(u32, usize),
             DelFunc(usize),
             Rename(usize, String),
+            /// `exports.delete(id of the export with this name)`
+            DelExport(String),
+            /// a built function replaces a parsed function import: (index into builts, handle, ImportsID)
+            Replace(usize, usize, u32),
         }
         let mut plan: Vec<A> = vec![];
         let mut deleted_one = false;
         for _ in 0..nops {
             let plan_len_before = plan.len();
-            let k = r.weighted(&[6, 5, 2, 3, 3, 2, 2, 2, 2, 1, 2]);
+            let k = r.weighted(&[6, 5, 2, 3, 3, 2, 2, 2, 2, 1, 2, 2, 2]);
             match k {
                 0 => {
                     let u = uid();
@@ -679,8 +688,47 @@ pub fn run(ctx: &mut Ctx) {
                         }
                     }
                 }
+                10 => {
+                    // an export added earlier is deleted and its name given to another item of the same kind
+                    let cands: Vec<usize> = (0..export_uses.len()).filter(|i| !reexported.contains(&export_uses[*i].0)).collect();
+                    if !cands.is_empty() {
+                        let i = *r.pick(&cands);
+                        let (name, old_h) = export_uses[i].clone();
+                        let sp = hs[old_h].sp;
+                        let pool: Vec<usize> = (0..hs.len()).filter(|h| hs[*h].sp == sp && !hs[*h].deleted).collect();
+                        let h = *r.pick(&pool);
+                        reexported.push(name.clone());
+                        plan.push(A::DelExport(name.clone()));
+                        plan.push(if sp == Sp::F { A::ExportF(h, name.clone()) } else { A::ExportM(h, name.clone()) });
+                        export_uses[i] = (name, h);
+                    }
+                }
+                11 => {
+                    // `replace_import_in_module` on a parsed function import that no earlier step renamed: the id keeps designating
+                    // "that function", which is now the built one, named after the import's field
+                    let cands: Vec<usize> = (0..hs.len())
+                        .filter(|h| hs[*h].sp == Sp::F && hs[*h].imp && !hs[*h].deleted && hs[*h].id != u32::MAX && base_imp_pos.contains_key(h)
+                            && !renames.iter().any(|(x, _)| x == h))
+                        .collect();
+                    if !cands.is_empty() {
+                        let h = *r.pick(&cands);
+                        let u = uid();
+                        let old = hs[h].uid;
+                        let mut body: Vec<String> = vec![format!("i32.const:{}", FMARK + u as i32), "drop".into()];
+                        if r.chance(1, 2) {
+                            body.push("nop".into());
+                        }
+                        builts.push(Built { uid: u, params: vec![], results: vec![], locals: vec![], body, name: Some(format!("i{old}")) });
+                        plan.push(A::Replace(builts.len() - 1, h, base_imp_pos[&h]));
+                        // the parsed name of the import goes with the import entry
+                        base_fnames.retain(|(x, _)| *x != old);
+                        hs[h].uid = u;
+                        hs[h].imp = false;
+                        replaced.push(h);
+                    }
+                }
                 _ => {
-                    let fs: Vec<usize> = (0..hs.len()).filter(|h| hs[*h].sp == Sp::F && !hs[*h].deleted && !(hs[*h].imp && false)).collect();
+                    let fs: Vec<usize> = (0..hs.len()).filter(|h| hs[*h].sp == Sp::F && !hs[*h].deleted && !replaced.contains(h)).collect();
                     // naming an import that sits behind a deleted import is where positions and ids part
                     let behind: Vec<usize> = fs
                         .iter()
@@ -789,6 +837,18 @@ pub fn run(ctx: &mut Ctx) {
                     }
                     A::DelFunc(h) => m.delete_func(FunctionID(hs_run[*h].id)),
                     A::Rename(h, name) => m.set_fn_name(FunctionID(hs_run[*h].id), name.clone()),
+                    A::Replace(b, _, imp_id) => {
+                        let b = &builts[*b];
+                        let mut fb = FunctionBuilder::new(&[], &[]);
+                        for t in &b.body {
+                            fb.inject(op_of_tok(t));
+                        }
+                        fb.replace_import_in_module(&mut m, wirm::ir::id::ImportsID(*imp_id));
+                    }
+                    A::DelExport(name) => {
+                        let id = m.exports.get_export_id_by_name(name.clone()).expect("export to delete exists");
+                        m.exports.delete(id);
+                    }
                 }
             }
             m.encode()
@@ -807,6 +867,8 @@ pub fn run(ctx: &mut Ctx) {
                 A::ImpGlobal(u, _) => format!("aig:{u}"),
                 A::DelFunc(h) => format!("df:{}", hs_run[*h].id),
                 A::Rename(h, n) => format!("sfn:{}:{n}", hs_run[*h].id),
+                A::DelExport(n) => format!("nop:del-{n}"),
+                A::Replace(b, _, imp_id) => format!("rin:{imp_id}:{}:{}", builts[*b].uid, builts[*b].name.clone().unwrap_or("-".into())),
             });
         }
         ctx.count(&format!("nops={}", plan.len()));
@@ -822,6 +884,8 @@ pub fn run(ctx: &mut Ctx) {
                 A::ImpGlobal(..) => "op=add_imported_global",
                 A::DelFunc(_) => "op=delete_func",
                 A::Rename(..) => "op=set_fn_name",
+                A::DelExport(..) => "op=delete_export",
+                A::Replace(..) => "op=replace_import",
             });
         }
         let show = |v: &Vec<String>| if v.is_empty() { "-".to_string() } else { v.join(",") };
@@ -916,6 +980,13 @@ pub fn run(ctx: &mut Ctx) {
         };
         // C12
         for b in &builts {
+            // a built function that replaced an import can be deleted again by a later step
+            if hs.iter().any(|h| h.uid == b.uid && h.deleted) {
+                if fs.iter().any(|x| *x == b.uid.to_string()) {
+                    fails.push(("C09,C12", "deleted-built-function-present".into(), format!("uid {}", b.uid)));
+                }
+                continue;
+            }
             let Some(pos) = fs.iter().position(|x| *x == b.uid.to_string()) else {
                 fails.push(("C12", "built-function-missing".into(), format!("uid {}", b.uid)));
                 continue;
